@@ -116,7 +116,7 @@ def _run_job(arg):
     return r
 
 
-def run_jobs(fn, jobs, mir_text, src_root, extra=None, procs=None, job_timeout=None):
+def run_jobs(fn, jobs, mir_text, src_root, extra=None, procs=None, job_timeout=None, pool_deadline=None):
     """run fn(job) for every job in forked worker processes; fn must be a module-level function.
     Own single-threaded scheduler (no multiprocessing.Pool: its handler threads fork replacement workers from a threaded
     parent, which deadlocked children twice).  A worker that dies (crash, OOM kill) makes its job inconclusive and is
@@ -128,7 +128,7 @@ def run_jobs(fn, jobs, mir_text, src_root, extra=None, procs=None, job_timeout=N
     if procs <= 1 or len(jobs) <= 1:
         _init_worker(mir_text, src_root, extra)
         return [_run_job((fn, j)) for j in jobs]
-    deadline = time.time() + float(os.environ.get('VERIF_POOL_DEADLINE_S', '7200'))
+    deadline = time.time() + float(os.environ.get('VERIF_POOL_DEADLINE_S', pool_deadline or 7200))
     job_timeout = float(os.environ.get('VERIF_JOB_TIMEOUT_S', job_timeout or 1800))
     results = [None] * len(jobs)
     nxt = 0
@@ -330,7 +330,8 @@ class Check:
 
     def jobs(self, fn, jobs, extra=None, procs=None):
         t = time.time()
-        res = run_jobs(fn, jobs, self.mir_text, self.ov.dir, extra, procs, job_timeout=900 if self.tier == 'quick' else 3600)
+        res = run_jobs(fn, jobs, self.mir_text, self.ov.dir, extra, procs, job_timeout=900 if self.tier == 'quick' else 3600,
+                       pool_deadline=1500 if self.tier == 'quick' else 7200)
         for r in res:
             self.absorb(r)
         slow = sorted(((r.get('wall_s', 0), str(r.get('job'))[:60]) for r in res), reverse=True)[:3]
